@@ -141,6 +141,9 @@ def gen(rnd, tier):
 def derived(c, rnd):
     for fmt in ("short_textgrid", "long_textgrid"):
         yield {"op": "emit", "tg": c["tg"], "fmt": fmt, "blanks": c["blanks"], "min": c.get("min"), "max": c.get("max"), "minlen": 1e-8}
+        r = ioops.save_text(c["tg"], fmt, c["blanks"], c.get("min"), c.get("max"), via_file=False)
+        if r[0] == "ok":
+            yield {"op": "specread", "text": r[1]}      # the Lean spec reader against the Python one, on praatio's output
 
 
 def gen_main(rnd, tier):
